@@ -172,7 +172,7 @@ fn plan(tier: Tier) -> Plan {
     }
 }
 
-fn explore<C: CellType>(ctx: &mut WorkerCtx, p: &Plan) {
+fn explore<C: CellType>(ctx: &mut WorkerCtx, p: &Plan, only_pair: Option<u64>) {
     let asg_full = assignments::<C>(p.full_grid);
     let asg_small = assignments::<C>(false);
     let mut pool: Vec<Expr<C>> = Vec::new();
@@ -201,7 +201,10 @@ fn explore<C: CellType>(ctx: &mut WorkerCtx, p: &Plan) {
             for j in 0..n {
                 pair_idx += 1;
                 // every worker builds the pool identically; checks are split by pair index
-                let mine = pair_idx % nshards == shard;
+                let mine = match only_pair {
+                    Some(t) => pair_idx == t,
+                    None => pair_idx % nshards == shard,
+                };
                 let (x, y) = (&pool[i], &pool[j]);
                 let mut ck = Checker { asg: if mine { &asg[..] } else { &asg[..0] }, errors: Vec::new(), evals: 0 };
                 if mine && pair_idx % 4096 == 0 {
@@ -239,6 +242,7 @@ fn explore<C: CellType>(ctx: &mut WorkerCtx, p: &Plan) {
                                 .set("class", "wrong-value")
                                 .set("width", C::BITS)
                                 .set("what", what)
+                                .set("pair_index", pair_idx)
                                 .set("x", format!("{x:?}"))
                                 .set("y", format!("{y:?}"))
                                 .set("observed", e),
@@ -272,10 +276,10 @@ pub fn worker(ctx: &mut WorkerCtx) {
     let p = plan(ctx.tier);
     for &w in &p.widths {
         match w {
-            8 => explore::<u8>(ctx, &p),
-            16 => explore::<u16>(ctx, &p),
-            32 => explore::<u32>(ctx, &p),
-            _ => explore::<u64>(ctx, &p),
+            8 => explore::<u8>(ctx, &p, None),
+            16 => explore::<u16>(ctx, &p, None),
+            32 => explore::<u32>(ctx, &p, None),
+            _ => explore::<u64>(ctx, &p, None),
         }
     }
 }
@@ -315,11 +319,13 @@ pub fn replay_case(j: &J) -> (bool, String) {
     let mut ctx = crate::framework::collector_ctx("C15", tier);
     ctx.only = Some(0);
     let p = plan(tier);
+    // rebuild the (deterministic) pool, but evaluate only the recorded pair
+    let pair = j.int("pair_index").map(|x| x as u64);
     match j.int("width").unwrap_or(8) {
-        8 => explore::<u8>(&mut ctx, &p),
-        16 => explore::<u16>(&mut ctx, &p),
-        32 => explore::<u32>(&mut ctx, &p),
-        _ => explore::<u64>(&mut ctx, &p),
+        8 => explore::<u8>(&mut ctx, &p, pair),
+        16 => explore::<u16>(&mut ctx, &p, pair),
+        32 => explore::<u32>(&mut ctx, &p, pair),
+        _ => explore::<u64>(&mut ctx, &p, pair),
     }
     let key = j.str("key").unwrap_or("");
     let got = ctx.collected.unwrap_or_default();
